@@ -153,6 +153,9 @@ type Kernel struct {
 	// on the simulated network when every task is parked: the same wait applies then.
 	ForeignTimers      bool
 	extWaited, extStep int64
+	// pokeCh wakes the kernel out of such a wait the instant a goroutine that is no task acts on
+	// the simulated network (see Poke).
+	pokeCh chan struct{}
 	Contended          int // times a task was found parked on a held lock
 	MaxEnabled         int
 	// OnStep, if set, is called by the kernel before every choice (invariants).
@@ -162,6 +165,7 @@ type Kernel struct {
 // NewKernel must be called inside a synctest bubble.
 func NewKernel(seed uint64, pol Policy) *Kernel {
 	k := &Kernel{epoch: time.Now(), rng: NewRand(seed), pol: pol, MaxSteps: 200000}
+	k.pokeCh = make(chan struct{}, 1)
 	k.Chosen = make([]uint8, 0, 1<<16)
 	k.Chosen = k.Chosen[:cap(k.Chosen)]
 	k.digest = 1469598103934665603
@@ -468,7 +472,7 @@ func (k *Kernel) Run() Verdict {
 						k.extStep *= 2
 					}
 					k.extWaited += k.extStep
-					time.Sleep(time.Duration(k.extStep))
+					k.idleWait(time.Duration(k.extStep))
 					continue
 				}
 				return Quiescent
@@ -491,6 +495,36 @@ func (k *Kernel) Run() Verdict {
 		k.step(t)
 	}
 }
+
+// idleWait lets d of virtual time pass, or less when a foreign goroutine pokes the kernel.
+func (k *Kernel) idleWait(d time.Duration) {
+	if !k.ForeignTimers {
+		time.Sleep(d)
+		return
+	}
+	tm := time.NewTimer(d)
+	select {
+	case <-k.pokeCh:
+		tm.Stop()
+	case <-tm.C:
+	}
+}
+
+// Poke is called by the transport when a goroutine that is no task (no task is running: the
+// kernel is waiting) has changed the state of a connection, so that the tasks waiting on it are
+// served at that very instant of virtual time and not at the end of the kernel's wait step.
+func (k *Kernel) Poke() {
+	if !k.ForeignTimers || k.foreignQuiet() {
+		return
+	}
+	select {
+	case k.pokeCh <- struct{}{}:
+	default:
+	}
+}
+
+//go:norace
+func (k *Kernel) foreignQuiet() bool { return k.running != nil || k.aborting }
 
 //go:norace
 func (k *Kernel) step(t *Task) {
